@@ -138,6 +138,7 @@ def diff_snapshots(a, b, allow_poses=False, allow_first_flag=False):
 
 class C15(OptEngineBase):
     PROPERTY = "C15"
+    SWEEP_MENU = {"solver": SOLVER_FAULTS, "stdout": STDOUT_FAULTS, "disk": DISK_FAULTS}
     TIERS = {
         "quick": {"runs": 1800, "budget_s": 75, "chunk": 8},
         "thorough": {"runs": 45000, "budget_s": 900, "chunk": 16},
@@ -469,6 +470,7 @@ class C15(OptEngineBase):
                     break
             if dry:
                 res.counts = w.op_counts()
+                res.counts["__actions__"] = [list(a) for a in w.disk.actions]
                 return res
             if n_q >= 50:
                 res.probe("history_len_50")
